@@ -22,7 +22,9 @@ def int_case(draw):
     nd = len(g["n"])
     return {"g": g, "nvdim": draw(st.integers(1, 4)), "seed": draw(st.integers(0, 2**31)),
             "seed2": draw(st.integers(0, 2**31)),
-            "dtype": draw(st.sampled_from(["float", "float", "complex"])),
+            "dtype": draw(st.sampled_from(["float", "float", "complex", "int"])),
+            "pre": draw(st.sampled_from(["none", "none", "rot-inplace", "scale-inplace", "region-scale-inplace"])),
+            "pre_k": draw(st.sampled_from([1, 3, -1])),
             "order": list(draw(st.permutations(range(nd)))),
             "subset": [i for i in range(nd) if draw(st.booleans())],
             "subset_type": draw(st.sampled_from(["list", "tuple"])),
@@ -31,16 +33,31 @@ def int_case(draw):
             "mask": draw(gen.mask_spec(nd))}
 
 
-def build(case, seedkey="seed", mesh=None):
+def build(case, seedkey="seed", mesh=None, allow_pre=False):
     import discretisedfield as df
 
     g = case["g"]
     n = tuple(g["n"])
     mesh = mesh if mesh is not None else gen.build_mesh(g)
-    arr = gen.make_array(case[seedkey], (*n, case["nvdim"]), "int", case["dtype"])
-    f = df.Field(mesh, nvdim=case["nvdim"], value=arr, dtype=np.complex128 if case["dtype"] == "complex" else None,
-                 unit=case["unit"], valid=gen.make_mask(case["mask"], n))
-    return mesh, f, arr
+    arr = gen.make_array(case[seedkey], (*n, case["nvdim"]), "int", "float" if case["dtype"] == "int" else case["dtype"])
+    dt = {"complex": np.complex128, "int": np.int64}.get(case["dtype"])
+    if case["dtype"] == "int":
+        arr = arr.astype(np.int64)
+    f = df.Field(mesh, nvdim=case["nvdim"], value=arr, dtype=dt, unit=case["unit"], valid=gen.make_mask(case["mask"], n))
+    pre = case.get("pre", "none")
+    if allow_pre and pre != "none" and mesh.region.ndim >= 2 and case["nvdim"] == 1:
+        # read derived geometry first, then change the geometry in place: nothing may be remembered from before
+        f.mesh.cell, f.mesh.dV, f.integrate()
+        dims = f.mesh.region.dims
+        if pre == "rot-inplace":
+            f.rotate90(dims[0], dims[1], k=case["pre_k"], inplace=True)
+        elif pre == "scale-inplace":
+            f.mesh.scale(tuple(2.0 if i == 0 else 1.0 for i in range(len(dims))), inplace=True)
+        else:
+            f.mesh.region.scale(tuple(1.0 if i == 0 else 0.5 for i in range(len(dims))), inplace=True)
+        arr = f.array.copy()
+        tag("pre-" + pre)
+    return f.mesh, f, arr.astype(float) if case["dtype"] == "int" else arr
 
 
 _SCALE = {"v": None}
@@ -81,10 +98,10 @@ def reduced_mesh_ok(res_mesh, mesh, removed, sig):
 def check_integrals(case):
     import discretisedfield as df
 
-    mesh, f, arr = build(case)
+    mesh, f, arr = build(case, allow_pre=True)
     nd, k = mesh.region.ndim, case["nvdim"]
     dims = list(mesh.region.dims)
-    cell = [float(c) for c in mesh.cell]
+    cell = [(float(mesh.region.pmax[d]) - float(mesh.region.pmin[d])) / int(mesh.n[d]) for d in range(nd)]
     sp = tuple(range(nd))
     tag(f"ndim={nd}")
     set_scale(arr, max(float(np.prod(cell)), *cell, *[float(np.prod(cell)) / c for c in cell]))
@@ -139,10 +156,10 @@ def check_integrals(case):
 def check_mean(case):
     import discretisedfield as df
 
-    mesh, f, arr = build(case)
+    mesh, f, arr = build(case, allow_pre=True)
     nd, k = mesh.region.ndim, case["nvdim"]
     dims = list(mesh.region.dims)
-    edges = [float(e) for e in mesh.region.edges]
+    edges = [float(mesh.region.pmax[d]) - float(mesh.region.pmin[d]) for d in range(nd)]
     sp = tuple(range(nd))
     _SCALE["v"] = float(np.max(np.abs(arr))) if arr.size else 0.0
     m = f.mean()
